@@ -5,6 +5,7 @@ import (
 	"strings"
 
 	"github.com/usnistgov/dastard"
+	"github.com/usnistgov/dastard/packets"
 )
 
 func init() { gens["C12"] = genC12 }
@@ -18,6 +19,13 @@ func genC12(r *Rng, tier string, o *Out) {
 	nlong := 4 // long runs away from the home offset with reset intervals around and beyond 2^15 and 2^16
 	if tier == "thorough" {
 		nlong = 40
+	}
+	ngrp := 150 // the unwrappers as the Abaco source wires them: NewAbacoGroup + demuxData on real packets
+	if tier == "thorough" {
+		ngrp = 6000
+	}
+	for i := 0; i < ngrp; i++ {
+		c12Group(r, o)
 	}
 	for i := 0; i < n; i++ {
 		long := i < nlong
@@ -126,4 +134,110 @@ func genC12(r *Rng, tier string, o *Out) {
 		}
 		o.Case("%s OUT %s", in.String(), out.String())
 	}
+}
+
+// c12Group builds a real channel group with generated unwrap options (NewAbacoGroup), feeds it real
+// packets in several demuxData calls and reports what every channel of the group receives.
+func c12Group(r *Rng, o *Out) {
+	first := r.Pick(0, 0, 1, 2, 4, 8, 12, 100)
+	nch := r.Range(1, 6)
+	opt := dastard.AbacoUnwrapOptions{RescaleRaw: r.Chance(88), ResetAfter: r.Pick(1, 2, 3, 5, 20, 20000), PulseSign: r.Pick(1, -1)}
+	opt.Unwrap = opt.RescaleRaw && r.Chance(80)
+	opt.Bias = r.Chance(50)
+	inv := []int{}
+	switch r.Intn(4) {
+	case 0: // none
+	case 1: // channel numbers of this group
+		for c := first; c < first+nch; c++ {
+			if r.Chance(50) {
+				inv = append(inv, c)
+			}
+		}
+	case 2: // small numbers: indices within the group, which are channel numbers only when first == 0
+		for c := 0; c < nch+2; c++ {
+			if r.Chance(50) {
+				inv = append(inv, c)
+			}
+		}
+	default: // anything around the group, repeats allowed
+		for k := r.Intn(5); k > 0; k-- {
+			inv = append(inv, r.Range(0, first+nch+2))
+		}
+	}
+	opt.InvertChan = inv
+	wide := r.Chance(20)
+	g := dastard.NewAbacoGroup(dastard.GroupIndex{Firstchan: first, Nchan: nch}, opt)
+	ncalls := r.Range(1, 4)
+	x := make([]int, nch)
+	for c := range x {
+		x[c] = r.Intn(65536)
+	}
+	kind := r.Intn(4)
+	var in, out strings.Builder
+	fmt.Fprintf(&in, "grp first %d nch %d resc %d unw %d bias %d reset %d sign %d inv %s wide %d calls %d",
+		first, nch, b2i(opt.RescaleRaw), b2i(opt.Unwrap), b2i(opt.Bias), opt.ResetAfter, opt.PulseSign, ints(inv), b2i(wide), ncalls)
+	fmt.Fprintf(&out, "%d", ncalls)
+	seq := uint32(r.Intn(1000))
+	for k := 0; k < ncalls; k++ {
+		npk := r.Range(1, 3)
+		frames := 0
+		var pkts []*packets.Packet
+		var all []int
+		for q := 0; q < npk; q++ {
+			fr := r.Range(1, 8)
+			frames += fr
+			vals := make([]int, 0, fr*nch)
+			for f := 0; f < fr; f++ {
+				for c := 0; c < nch; c++ {
+					switch kind {
+					case 0:
+						x[c] = r.Intn(65536)
+					case 1:
+						x[c] = (x[c] + r.Range(-8193, 8193) + 65536*4) % 65536
+					case 2:
+						x[c] = (x[c] + r.Pick(1, -1)*(32768+r.Range(-32, 32)) + 65536*4) % 65536
+					default:
+						if r.Chance(15) {
+							x[c] = (x[c] + opt.PulseSign*r.Range(16384, 3*65536) + 65536*8) % 65536
+						} else {
+							x[c] = (x[c] - opt.PulseSign*r.Range(0, 4097) + 65536*8) % 65536
+						}
+					}
+					v := int(int16(uint16(x[c])))
+					if wide { // the 16 bits above bit 15 carry the sample; the low half is anything
+						v = int(int32(uint32(x[c])<<16 | uint32(r.Intn(65536))))
+					}
+					vals = append(vals, v)
+				}
+			}
+			pk := packets.NewPacket(10, 20, seq, first)
+			seq++
+			var err error
+			if wide {
+				d := make([]int32, len(vals))
+				for i, v := range vals {
+					d[i] = int32(v)
+				}
+				err = pk.NewData(d, []int16{int16(nch)})
+			} else {
+				d := make([]int16, len(vals))
+				for i, v := range vals {
+					d[i] = int16(v)
+				}
+				err = pk.NewData(d, []int16{int16(nch)})
+			}
+			if err != nil {
+				panic(err)
+			}
+			pkts = append(pkts, pk)
+			all = append(all, vals...)
+		}
+		in.WriteString(" " + ints(all))
+		dc := dastard.VerifGroupDemux(g, pkts, frames)
+		fmt.Fprintf(&out, " %d", len(dc))
+		for _, ch := range dc {
+			out.WriteString(" " + ints(ch))
+		}
+	}
+	o.Case("%s OUT %s", in.String(), out.String())
 }
